@@ -271,14 +271,14 @@ PROPS['C08'] = {
 PROPS['C17'] = {
     'title': 'Rows expire only after their deadline, and then do expire',
     'modules': ['ColumnVerif.Props.C17', 'ColumnVerif.Props.C17skel'],
-    'runs': [{'mode': 'ttl'}],
+    'runs': [{'mode': 'ttl'}, {'mode': 'store'}],
     'skeleton': True,
     'trusted_base': TB_COMMON + [SKEL_TB, "runtime, not modelled: the ticker, the wall clock, goroutine scheduling"],
     'assumptions': [
         "PARTIAL: 'within a few cleanup intervals' depends on Go timers and scheduling, which no model here exhibits; it is observed with margins by the ttl mode",
         "Extend on a row without a deadline (observation O1) is outside the property; recorded as a counterexample theorem",
     ],
-    'level_text': "PARTIAL. Lean theorems over the executable model: a vacuum pass (With(expire) + ExpiresAt + now.After) deletes a row iff it is live, holds a deadline value, the deadline is non-zero and strictly before now — for every store, clock reading and offset (via C04's filter theorems); hence rows without TTL / with a future deadline are never removed and a passed deadline is removed by the next pass; TTL arithmetic (positive TTL = now + ttl, non-positive = never; Extend adds). The decision's shape in the source (ExpiresAt, now.After, `ok && expireAt != 0`, `ttl > 0`) is read from the regenerated skeleton. Tied to the code by running the real vacuum goroutine at 1–100 ms intervals over rows with all deadline kinds under concurrent updates, inserts and deletes, with generous margins, comparing every judged observation with the model's decision.",
+    'level_text': "PARTIAL. Lean theorems over the executable model: a vacuum pass (With(expire) + ExpiresAt + now.After) deletes a row iff it is live, holds a deadline value, the deadline is non-zero and strictly before now — for every store, clock reading and offset (via C04's filter theorems); hence rows without TTL / with a future deadline are never removed and a passed deadline is removed by the next pass; TTL arithmetic (positive TTL = now + ttl, non-positive = never; Extend adds). The decision's shape in the source (ExpiresAt, now.After, `ok && expireAt != 0`, `ttl > 0`) is read from the regenerated skeleton. Tied to the code by running the real vacuum goroutine at 1–100 ms intervals over rows with all deadline kinds under concurrent updates, inserts and deletes, with generous margins, comparing every judged observation with the model's decision; and by differential histories (store mode) that write and merge the deadline column itself (Set = store, Extend = additive merge) across chunks, through offset re-use, replication (both loggers) and snapshot/restore, with replica- and restore-equality oracles.",
     'technique': 'Lean 4 proof (decision logic stated outright) + regenerated protocol skeleton + timed observation of the real goroutine',
     'design_ref': '§6 C17',
 }
